@@ -42,7 +42,12 @@ RULE = ("operations are enumerated from the live model: (object, public attribut
         "search/find_references calls; executed in a seeded shuffle with ~10% repetitions. distinct = distinct "
         "(model, operation) descriptor; non-trivial = the operation executed real accessor/renderer code on a "
         "loaded corpus model (every case is; constant-only cases are not generated). Factory cases: every corpus "
-        "occurrence of the three special factories x every combination of the attributes they read.")
+        "occurrence of the three special factories x every combination of the attributes they read. Edited states: a "
+        "seeded API history (delete / rename / move of objects picked from the diagrams' own semanticElements/target "
+        "references, requirement data made inconsistent-but-legal) followed by the read surface, every op under an lxml "
+        "write barrier. parse: corpus diagrams (all in thorough) exported as node arenas; cache: seeded render/invalidate "
+        "histories incl. failing parameter sets; effects: every distinct (function, receiver, operation, key) access the "
+        "parser performs while all diagrams are parsed and queried.")
 ASSUMPTIONS = [
     "etree.tostring equality of every fragment (fast screen used between check points) implies equality of "
     "ModelFile.write_xml output: write_xml is a function of the tree only; the real write_xml bytes are compared at "
@@ -51,10 +56,27 @@ ASSUMPTIONS = [
     "bound methods found among public attributes are read (getattr) but not called, except the read-only entry points "
     "named in the property (validate, search, find_references, render, save-to-buffer of diagrams, ReqIF export)",
     "PVMT (model.pvmt, obj.pvmt[...]/repr/html) is the documented exception; checked separately: additive + idempotent",
+    "write barrier: model elements are instances of a Python subclass of lxml.etree.ElementBase injected through the XMLParser "
+    "the loader instantiates; C-level writes that bypass the element API (none known in lxml's public surface) would be invisible to "
+    "the barrier, not to the digests",
+    "effect table: receiver kinds are inferred syntactically from annotations and obvious data flow; its soundness on executed "
+    "paths is checked by the `effects` stream (every access the parser performs must be a row); unexecuted paths rest on the analyser",
+    "a mutator call during a read-only operation whose effect is undone within the same operation is reported "
+    "(`writes-transient|...`) although save() would write the same bytes afterwards: between write and undo the model is changed, "
+    "and an exception in between leaves it changed",
 ]
 TRUSTED = ["C11: lxml's etree.tostring is a faithful rendering of an element tree (used only as a screen)"]
 MANIFEST = dict(
-    text=("Lean model of the read surface as functions State -> Out and of diagram rendering as a fold of element "
+    text=("Effect model: every element factory / filter named by the live dispatch tables of the diagram parser (generated: "
+          "STYLECLASS_LOOKUP + fallback, VISUAL_TYPES, COMPOSITE_FILTERS, GLOBAL_FILTERS) is a program over the model trees "
+          "in which write requests exist; theorems: a program with no reachable write returns the tree unchanged (frame rule, "
+          "also from the run's trace), every factory of the live tables does (factory_pure), the element loop of parse_diagram "
+          "does for any number of elements (parse_diagram_pure), the factories as formerly coded do not, an unknown factory "
+          "cannot be proved pure; generated effect table of the aird package (every access site of every function, receiver "
+          "kind, call graph) with the kernel-checked obligation that every site reachable from a read-only entry point or a "
+          "registered table entry is harmless (parser_effects_pure). Render cache as a state machine: transparent if keyed by "
+          "parameters, not transparent as coded (witness replayed), transparent on single-parameter histories. Older part: "
+          "Lean model of the read surface as functions State -> Out and of diagram rendering as a fold of element "
           "factories State -> State x Picture, in two variants: the three label-computing factories as they were coded "
           "(writing `name` / `workspacePath` into the XML) and as repaired. Theorems: any sequence of read operations "
           "(with the repaired renderer) leaves save(state) unchanged; the repaired factories return the tree unchanged "
@@ -63,12 +85,13 @@ MANIFEST = dict(
           "construction for the plain reads; the weight is carried by the implementation-side monitor: every object x "
           "public attribute, dir/repr/html of objects, lists, diagrams, every diagram x format, validation, metrics, "
           "ReqIF export, search, find_references in seeded random order with repetition, with a digest of every "
-          "fragment's serialisation before and after, bisected to the first mutating call."),
+          "fragment's serialisation before and after, bisected to the first mutating call; the same read surface on EDITED "
+          "states under an lxml write barrier (every mutator call during a read-only operation is attributed to it)."),
     design_ref="§6 C11",
     note=("Partial by nature (DESIGN §9): the purity theorem is a by-construction frame condition for plain reads; real "
           "detection is the before/after byte comparison on all corpus models. Trusted: Lean kernel; lxml tostring as screen; "
           "cairosvg stubbed; methods other than the named read-only entry points are not called."),
-    technique="Lean 4 proof (fold induction + simulation between coded and repaired renderer) + exhaustive read-surface monitor with byte comparison of every fragment",
+    technique="Lean 4 proof (effect-typed programs + frame rule, fold induction, simulation between coded and repaired renderer, cache invariant) + generated effect/dispatch tables with kernel-checked obligations + exhaustive read-surface monitor with byte comparison of every fragment and an lxml write barrier",
 )
 
 DATA = "tests/data"
@@ -1016,14 +1039,13 @@ def edited_ops(ctx: Ctx, model, edits: list[dict]) -> list[dict]:
     for d in [d.uuid for d in model.diagrams]:
         ops.append({"k": "dg.render", "d": d, "fmt": None})
         ops.append({"k": "dg.render", "d": d, "fmt": "svg", "pretty": rng.random() < 0.5})
-        for k in ("dg.html", "dg.repr", "dg.dir", "dg.short"):
+        for k in ("dg.html", "dg.mime", "dg.repr", "dg.dir", "dg.short"):
             ops.append({"k": k, "d": d})
         for a in ("nodes", "semantic_nodes", "as_svg", "as_html_img", "target", "filters", "viewpoint", "type"):
             ops.append({"k": "dg.attr", "d": d, "a": a, "deep": a in ("nodes",) and rng.random() < 0.3})
         if ctx.thorough:
             for f in fmts:
                 ops.append({"k": "dg.render", "d": d, "fmt": f})
-            ops.append({"k": "dg.mime", "d": d})
     if list(model.diagrams):
         ops.append({"k": "dglist"})
     try:
@@ -1074,7 +1096,7 @@ def run_edited(ctx: Ctx, out: Outcome, label: str, size: str) -> None:
         out.hit("edit:" + k, v)
     ops = edited_ops(ctx, m, edits)
     if not ctx.thorough and len(ops) > 2500:
-        heavy = [op for op in ops if op["k"] in ("dg.render", "dg.html", "reqif", "validate", "metrics")]
+        heavy = [op for op in ops if op["k"] in ("dg.render", "dg.html", "dg.mime", "reqif", "validate", "metrics")]
         rest = [op for op in ops if op not in heavy]
         ops = heavy + ctx.rng.sample(rest, 2500 - min(2500, len(heavy)))
         ctx.rng.shuffle(ops)
